@@ -188,8 +188,24 @@ class PoolSuite(Suite):
     def gen_cases(self, rng, tier):
         if tier == "quick":
             return (gen_stop_family(rng, 900) + gen_destroy_client(rng, 250) + gen_destroy_job(rng, 250) + gen_idle_family(rng, 200))
-        return (gen_stop_family(rng, 22000) + gen_destroy_client(rng, 5000) + gen_destroy_job(rng, 5000) + gen_idle_family(rng, 3000)
-                + gen_exhaustive(EXH_SHAPES_2T, 11) + gen_exhaustive(EXH_SHAPES_3T, 7))
+        return (gen_stop_family(rng, 60000) + gen_destroy_client(rng, 14000) + gen_destroy_job(rng, 14000) + gen_idle_family(rng, 8000)
+                + gen_exhaustive(EXH_SHAPES_2T, 12) + gen_exhaustive(EXH_SHAPES_3T, 8))
+
+    def normalize(self, lines):
+        """the order in which stop() destroys the closures of the swapped-out queue is std::deque's (unspecified; libstdc++
+        destroys the full middle nodes first): a run of consecutive `cancel` lines is compared as a set"""
+        out, run = [], []
+        for l in lines:
+            if l.startswith("cancel j"):
+                run.append(l)
+                continue
+            if run:
+                out += sorted(run, key=lambda x: int(x.split()[1][1:]))
+                run = []
+            out.append(l)
+        if run:
+            out += sorted(run, key=lambda x: int(x.split()[1][1:]))
+        return out
 
     def distinct_key(self, case, out):
         return "|".join(case["lines"][:-2]) + "|" + "|".join(l for l in out if l.startswith("s "))
